@@ -31,27 +31,36 @@ var c16duties = []c16duty{
 	{"B", Duty{Slot: 2, Type: DutyAttester}, 2, false},
 	{"C", Duty{Slot: 2, Type: DutyProposer}, 2, false}, // shares B's deadline
 	{"D", Duty{Slot: 3, Type: DutyAttester}, 3, false},
-	{"E", Duty{Slot: 9, Type: DutyExit}, 0, true},      // never expires
+	{"E", Duty{Slot: 9, Type: DutyExit}, 0, true},       // never expires
 	{"F", Duty{Slot: 0, Type: DutyAttester}, -1, false}, // deadline already past at start
 	{"G", Duty{Slot: 2, Type: DutyRandao}, 2, false},    // third duty with deadline 2
 	{"H", Duty{Slot: 2, Type: DutyAggregator}, 2, false},
 }
 
-// ops: 0..len(duties)-1 = Add(duty i); then advance(0.5), advance(1)
+// ops: 0..nd-1 = Add(duty i); nd = advance(0.5s); nd+1 = advance(1s); nd+2 = the clock jumps by 2.5s (past two
+// deadlines at once: a stalled process / adjusted clock); nd+3+i (i<4) = the deadliner's goroutine is stalled (inside
+// the deadline function, while registering the never-expiring duty E), meanwhile the clock jumps by 2s and Add(duty i)
+// is called; then the goroutine resumes and finds both the fired timer and the pending Add (at most one such op per
+// sequence; both select orders are explored).
 type c16case struct {
-	Ops    []int `json:"ops"`
-	MapRot int   `json:"maprot"`
-	NDuty  int   `json:"nduty"`
+	Ops     []int `json:"ops"`
+	MapRot  int   `json:"maprot"`
+	SelMode int   `json:"selmode"`
+	NDuty   int   `json:"nduty"`
 }
 
 func c16opName(nd, op int) string {
-	if op < nd {
+	switch {
+	case op < nd:
 		return "add" + c16duties[op].name
-	}
-	if op == nd {
+	case op == nd:
 		return "adv0.5"
+	case op == nd+1:
+		return "adv1"
+	case op == nd+2:
+		return "jump2.5"
 	}
-	return "adv1"
+	return "stall+jump2+add" + c16duties[op-nd-3].name
 }
 
 type c16receipt struct {
@@ -72,21 +81,33 @@ func c16run(t *testing.T, cs c16case) (res c16result) {
 	runtime.VerifSetMapRot(true, uint64(cs.MapRot))
 	defer runtime.VerifSetMapRot(false, 0)
 	nd := cs.NDuty
+	runtime.VerifSetSelMode(uint32(cs.SelMode))
+	defer runtime.VerifSetSelMode(0)
 	synctest.Test(t, func(t *testing.T) {
 		ctx, cancel := context.WithCancel(context.Background())
-		start := time.Now().Add(250 * time.Millisecond) // harness acts at multiples of 0.5s, deadlines fall on k+0.25s: never simultaneously
+		// The deadliner runs on a fake clock that the harness moves (so that time can also jump past several deadlines
+		// between two steps of the deadliner's goroutine); the bubble is only used to detect quiescence.
+		fc := clockwork.NewFakeClock()
+		t0 := fc.Now()
+		start := t0.Add(250 * time.Millisecond) // harness acts at multiples of 0.5s, deadlines fall on k+0.25s: never simultaneously
 		byDuty := map[Duty]c16duty{}
 		for _, d := range c16duties[:nd] {
 			byDuty[d.duty] = d
 		}
+		var stallAt chan struct{} // when set: the next deadline lookup for the never-expiring duty parks here
+		var stalled, release chan struct{}
 		dl := newDeadliner(ctx, "c16", func(duty Duty) (time.Time, bool) {
 			d := byDuty[duty]
 			if d.never {
+				if stallAt != nil {
+					stallAt = nil
+					close(stalled)
+					<-release
+				}
 				return time.Time{}, false
 			}
 			return start.Add(time.Duration(d.deadline * float64(time.Second))), true
-		}, clockwork.NewRealClock())
-		t0 := time.Now()
+		}, fc)
 		done := make(chan struct{})
 		go func() { // a consumer that keeps reading
 			defer close(done)
@@ -95,28 +116,44 @@ func c16run(t *testing.T, cs c16case) (res c16result) {
 				case <-ctx.Done():
 					return
 				case d := <-dl.C():
-					res.receipts = append(res.receipts, c16receipt{d, time.Since(t0)})
+					res.receipts = append(res.receipts, c16receipt{d, fc.Since(t0)})
 				}
 			}
 		}()
 		synctest.Wait()
 		for _, op := range cs.Ops {
-			res.opTimes = append(res.opTimes, time.Since(t0))
 			switch {
 			case op < nd:
+				res.opTimes = append(res.opTimes, fc.Since(t0))
 				res.statuses = append(res.statuses, dl.Add(c16duties[op].duty))
-			case op == nd:
+			case op <= nd+2:
+				res.opTimes = append(res.opTimes, fc.Since(t0))
 				res.statuses = append(res.statuses, -1)
-				time.Sleep(500 * time.Millisecond)
+				fc.Advance([]time.Duration{500 * time.Millisecond, time.Second, 2500 * time.Millisecond}[op-nd])
 			default:
-				res.statuses = append(res.statuses, -1)
-				time.Sleep(time.Second)
+				// stall the deadliner's goroutine inside Add(E), move the clock, issue the Add, resume
+				stallAt, stalled, release = make(chan struct{}), make(chan struct{}), make(chan struct{})
+				eDone := make(chan struct{})
+				go func() { dl.Add(c16duties[4].duty); close(eDone) }()
+				<-stalled
+				fc.Advance(2 * time.Second)
+				res.opTimes = append(res.opTimes, fc.Since(t0))
+				var st DeadlineStatus
+				aDone := make(chan struct{})
+				go func() { st = dl.Add(c16duties[op-nd-3].duty); close(aDone) }()
+				synctest.Wait()
+				close(release)
+				<-eDone
+				<-aDone
+				res.statuses = append(res.statuses, st)
 			}
 			synctest.Wait()
 		}
 		// let everything that is pending expire
-		time.Sleep(20 * time.Second)
-		synctest.Wait()
+		for i := 0; i < 12; i++ {
+			fc.Advance(5 * time.Second)
+			synctest.Wait()
+		}
 		cancel()
 		<-done
 		synctest.Wait()
@@ -131,10 +168,13 @@ func c16run(t *testing.T, cs c16case) (res c16result) {
 	}
 	scheduled := map[string]bool{} // accepted before their deadline (each is owed exactly one report)
 	for i, op := range cs.Ops {
-		if op >= nd {
+		if op >= nd && op <= nd+2 {
 			continue
 		}
-		d := c16duties[op]
+		d := c16duties[op%(nd+3)]
+		if op > nd+2 {
+			d = c16duties[op-nd-3]
+		}
 		now := res.opTimes[i]
 		st := res.statuses[i]
 		switch {
@@ -203,7 +243,7 @@ func c16str(cs c16case) string {
 	for _, op := range cs.Ops {
 		p = append(p, c16opName(cs.NDuty, op))
 	}
-	return fmt.Sprintf("rot%d:%s", cs.MapRot, strings.Join(p, ","))
+	return fmt.Sprintf("rot%d/sel%d:%s", cs.MapRot, cs.SelMode, strings.Join(p, ","))
 }
 
 func TestVerifC16(t *testing.T) {
@@ -245,12 +285,12 @@ func TestVerifC16(t *testing.T) {
 	mstates := map[string]struct{}{}
 	defer func() { r.States(len(mstates)) }()
 	type cfg struct{ nd, maxLen int }
-	cfgs := []cfg{{6, 6}, {8, 5}}
+	cfgs := []cfg{{6, 5}, {8, 4}}
 	if enumx.Thorough() {
-		cfgs = []cfg{{6, 8}, {8, 7}}
+		cfgs = []cfg{{6, 6}, {8, 5}}
 	}
 	for _, c := range cfgs {
-		nops := c.nd + 2
+		nops := c.nd + 3 + 4
 		// shard on the first two operations
 		var rec func(ops []int)
 		rec = func(ops []int) {
@@ -264,17 +304,28 @@ func TestVerifC16(t *testing.T) {
 			}
 			if len(ops) > 0 {
 				rots := 1
-				tie := 0
+				tie, jumps, nadds := 0, 0, 0
 				for _, op := range ops {
 					if op < c.nd && c16duties[op].deadline == 2 {
 						tie++
 					}
+					if op < c.nd || op > c.nd+2 {
+						nadds++
+					}
+					if op >= c.nd+2 {
+						jumps++
+					}
 				}
-				if tie >= 2 {
+				if tie >= 2 || (jumps > 0 && nadds >= 2) {
 					rots = 3
 				}
-				for rot := 0; rot < rots; rot++ {
-					cs := c16case{Ops: append([]int(nil), ops...), MapRot: rot, NDuty: c.nd}
+				sels := []int{1}
+				if jumps > 0 {
+					sels = []int{1, 2} // both orders in which the deadliner can see "timer fired" and "Add pending"
+				}
+				for ri := 0; ri < rots*len(sels); ri++ {
+					rot := ri % rots
+					cs := c16case{Ops: append([]int(nil), ops...), MapRot: rot, SelMode: sels[ri/rots], NDuty: c.nd}
 					res := c16run(t, cs)
 					key := ""
 					var sts []string
@@ -309,6 +360,15 @@ func TestVerifC16(t *testing.T) {
 				return
 			}
 			for op := 0; op < nops; op++ {
+				if op > c.nd+2 {
+					dup := false
+					for _, o := range ops {
+						dup = dup || o > c.nd+2
+					}
+					if dup {
+						continue
+					}
+				}
 				rec(append(ops, op))
 			}
 		}
